@@ -28,6 +28,9 @@ const (
 const (
 	asciiMaxControlChar = 31
 	asciiMaxChar        = 127
+
+	// maxQualityDigits is the number of fractional digits of a q-value that are taken into account
+	maxQualityDigits = 15
 )
 
 func init() {
@@ -294,6 +297,11 @@ func expectQuality(s string) (q float64, rest string) {
 		b := s[i]
 		if b < '0' || b > '9' {
 			break
+		}
+		if i >= maxQualityDigits {
+			// further digits are consumed but cannot change the value at float64 precision:
+			// accumulating them would overflow n and d
+			continue
 		}
 		n = n*10 + int(b) - '0'
 		d *= 10
